@@ -22,7 +22,19 @@ GEN_OBJ = 3
 PRELOAD = [("new", 0, 1, "a", "h1"), ("new", 1, 2, "b", "h2"), ("new", 2, 4, "c", "h3"), ("new", 3, 5, "d", "h4")]
 FOCUS_DEPTH = 3 if QUICK else 4        # operations after the four-member preload
 LOCALS = dict(plain=dict(uid=3, name="local", ha="hl"),
-              falsy=dict(uid=0, name="", ha=""))      # legal keys that are false in a boolean test
+              falsy=dict(uid=0, name="", ha=""),      # legal keys that are false in a boolean test
+              ip=dict(uid=3, name="local", ha=("127.0.0.1", 9000)))   # UdpStack + IpLocalDevice / IpRemoteDevice, (host, port) addresses
+IP_PRELOAD_HAS = [("10.0.0.1", 7000), ("127.0.0.1", 7000), ("10.0.0.3", 7000), ("10.0.0.4", 7000)]
+IP_TARGETS = [("0.0.0.0", 7000), ("", 7000), ("localhost", 7000), ("0.0.0.0", 7001), ("0.0.0.0", 9000), ("10.0.0.1", 7000)]
+LOOPBACK_SPELLINGS = ("0.0.0.0", "", "localhost")
+
+
+def norm(ha):
+    """The dotted form IpDevice's constructor gives an address (any-interface / empty / localhost -> loopback)."""
+    if isinstance(ha, tuple) and ha and ha[0] in LOOPBACK_SPELLINGS:
+        return ("127.0.0.1",) + tuple(ha[1:])
+    return ha
+
 LOCAL = dict(LOCALS["plain"], cfg="plain")
 UIDS = [1, 2, 3, 0]
 NAMES = ["a", "b", "", "local"]
@@ -34,19 +46,22 @@ def set_local(cfg):
     falsy keys (uid 0, name '', ha ''); with the falsy local device those are the local keys and 4 / c / h3 take their place."""
     LOCAL.clear()
     LOCAL.update(LOCALS[cfg], cfg=cfg)
-    plain = cfg == "plain"
+    plain = cfg != "falsy"
     UIDS[:] = [1, 2, LOCAL["uid"], 0 if plain else 4]
     NAMES[:] = ["a", "b", "" if plain else "c", LOCAL["name"]]
     HAS[:] = ["h1", "h2", "" if plain else "h3", LOCAL["ha"]]
+    if cfg == "ip":
+        HAS[:] = [("127.0.0.1", 7000), ("0.0.0.0", 7000), ("10.0.0.2", 7000), LOCAL["ha"]]
 
 
 def creations():
     out = []
     for u in (1, 2, None):
         for n in ("a", "b"):
-            for h in ("h1", "h2"):
+            for h in (HAS[0], HAS[1]):
                 out.append((u, n, h))
-    out += [(LOCAL["uid"], "a", "h1"), (1, LOCAL["name"], "h1"), (1, "a", LOCAL["ha"]), (None, None, "h3")]
+    out += [(LOCAL["uid"], "a", HAS[0]), (1, LOCAL["name"], HAS[0]), (1, "a", LOCAL["ha"]),
+            (None, None, HAS[2] if LOCAL["cfg"] == "ip" else "h3")]
     return out
 
 
@@ -56,6 +71,7 @@ class Ref:
     def __init__(self):
         self.order = []            # object indexes in insertion order
         self.attrs = {}            # obj -> [uid, name, ha]
+        self.adopt = None
 
     def taken(self, field, value, skip=None):
         if value == (LOCAL["uid"], LOCAL["name"], LOCAL["ha"])[field]:
@@ -69,6 +85,22 @@ class Ref:
         return "ok"
 
     def change(self, o, field, new):
+        self.adopt = None
+        if field == 2 and LOCAL["cfg"] == "ip":
+            # An Ip device may or may not rewrite the spelling of its address.  Required either way: a raw collision is
+            # rejected, an accepted change leaves the remote at `new` or its dotted form, and (checked by the caller on the
+            # indexes) the ha index holds every member under the address it currently reports.
+            old = self.attrs[o][2]
+            if o not in self.order:
+                return None if norm(new) == old or new == old else "reject"
+            if new == old:
+                return None
+            if self.taken(2, new):
+                return "reject"
+            self.adopt = (o, (new, norm(new)))
+            if norm(new) != new and (norm(new) == old or self.taken(2, norm(new), skip=o)):
+                return None        # taken only after normalisation: either answer
+            return "ok"
         if self.attrs[o][field] == new:
             return None            # no-op: either answer accepted, nothing changes
         if o not in self.order or self.taken(field, new):
@@ -96,7 +128,19 @@ class Ref:
 class Run:
     def __init__(self, history):
         from ioflo.aio.proto import stacking
-        self.stack = stacking.RemoteStack(puid=2, uid=LOCAL["uid"], name=LOCAL["name"], ha=LOCAL["ha"])
+        if LOCAL["cfg"] == "ip":
+            class NoSocket(object):
+                """handler double: UdpStack only needs it to open"""
+                ha = LOCAL["ha"]
+                opened = False
+                def reopen(self):
+                    self.opened = True
+                    return True
+                def close(self):
+                    self.opened = False
+            self.stack = stacking.UdpStack(handler=NoSocket(), puid=2, uid=LOCAL["uid"], name=LOCAL["name"], ha=LOCAL["ha"])
+        else:
+            self.stack = stacking.RemoteStack(puid=2, uid=LOCAL["uid"], name=LOCAL["name"], ha=LOCAL["ha"])
         self.objs = [None] * NOBJ
         self.ref = Ref()
         self.diverged = None
@@ -134,12 +178,13 @@ class Run:
         try:
             if kind == "new":
                 _, i, u, n, h = op
-                obj = devicing.RemoteDevice(stack=s, uid=u, name=n, ha=h)
+                klass = devicing.IpRemoteDevice if LOCAL["cfg"] == "ip" else devicing.RemoteDevice
+                obj = klass(stack=s, uid=u, name=n, ha=h)
                 self.objs[i] = obj
                 ref.attrs[i] = [obj.uid, obj.name, obj.ha]
                 if u is None and (ref.taken(0, obj.uid)):
                     note = ("new|auto-uid-collides", "automatic uid %r collides with an existing remote or the local device" % (obj.uid,))
-                if u is not None and (obj.uid, obj.name, obj.ha) != (u, n, h):
+                if u is not None and ((obj.uid, obj.name) != (u, n) or obj.ha not in (h, norm(h))):
                     note = ("new|attributes", "RemoteDevice(uid=%r,name=%r,ha=%r) has %r" % (u, n, h, (obj.uid, obj.name, obj.ha)))
                 exp = ref.add(i)
                 s.addRemote(obj)
@@ -154,7 +199,19 @@ class Run:
                 s.renameRemote(self.objs[op[1]], op[2])
             elif kind == "reha":
                 exp = ref.change(op[1], 2, op[2])
-                s.rehaRemote(self.objs[op[1]], op[2])
+                try:
+                    s.rehaRemote(self.objs[op[1]], op[2])
+                finally:
+                    pass
+                if ref.adopt:          # Ip configuration, accepted: take the address the device now reports
+                    o, allowed = ref.adopt
+                    now = self.objs[o].ha
+                    if now not in allowed:
+                        note = ("reha|address-not-set", "after %s the remote reports ha %r" % (op_str(op), now))
+                    ref.attrs[o][2] = now
+                    if ref.taken(2, now, skip=o):
+                        note = ("reha|members-share-current-address", "after %s the remote reports ha %r, which the local device or another member also reports"
+                                % (op_str(op), now))
             elif kind == "remove":
                 exp = ref.remove(op[1])
                 s.removeRemote(self.objs[op[1]])
@@ -209,7 +266,8 @@ def op_str(op):
 
 
 def hist_str(h):
-    return ("" if LOCAL["cfg"] == "plain" else "[local uid=0 name='' ha=''] ") + " ".join(op_str(o) for o in h)
+    pre = dict(plain="", falsy="[local uid=0 name='' ha=''] ", ip="[UdpStack, IpRemoteDevice, local ha=('127.0.0.1', 9000)] ")[LOCAL["cfg"]]
+    return pre + " ".join(op_str(o) for o in h)
 
 
 def focused_ops(run):
@@ -217,11 +275,12 @@ def focused_ops(run):
     an occupied key) each of them, so that removals in the middle followed by moves/renames/rehas are reached."""
     ops = []
     for i in range(NOBJ):
-        for u in (LOCAL["uid"], 6, 1):
+        ip = LOCAL["cfg"] == "ip"       # Ip configuration: the address alphabet is the point, one free uid / name suffices
+        for u in ((6,) if ip else (LOCAL["uid"], 6, 1)):
             ops.append(("move", i, u))
-        for n in (LOCAL["name"], "e", "a"):
+        for n in (("e",) if ip else (LOCAL["name"], "e", "a")):
             ops.append(("rename", i, n))
-        for h in (LOCAL["ha"], "h5", "h1"):
+        for h in ([LOCAL["ha"]] + IP_TARGETS if LOCAL["cfg"] == "ip" else (LOCAL["ha"], "h5", "h1")):
             ops.append(("reha", i, h))
         ops.append(("remove", i))
         ops.append(("add", i))
@@ -258,7 +317,8 @@ def work(arg):
         h0 = [("new", 0) + tuple(first)]
         depth, opsfn = MAX_DEPTH, enabled_ops
     else:
-        h0 = PRELOAD + [first]
+        pre = PRELOAD if lcfg != "ip" else [op[:4] + (IP_PRELOAD_HAS[op[1]],) for op in PRELOAD]
+        h0 = pre + [first]
         depth, opsfn = FOCUS_DEPTH - 1, focused_ops
 
     def build(history):
@@ -275,7 +335,7 @@ def work(arg):
             p.outcome("diverged:" + group)
             p.violation(group, hist_str(history), what,
                         dict(local=dict(LOCAL), ops=[list(o) for o in history], nops=len(history),
-                             how="stack = RemoteStack(puid=2, uid/name/ha = the 'local' entry of this file); newK(u,n,h) = obj K = RemoteDevice(stack, uid=u, name=n, ha=h); "
+                             how="stack = RemoteStack(puid=2, uid/name/ha = the 'local' entry of this file) (Ip configuration: UdpStack(handler=double, ...) and IpRemoteDevice); newK(u,n,h) = obj K = RemoteDevice(stack, uid=u, name=n, ha=h); "
                                  "stack.addRemote(obj K); addK/removeK = stack.addRemote/removeRemote(obj K); moveK->x / renameK->x / rehaK->x = "
                                  "stack.moveRemote/renameRemote/rehaRemote(obj K, x); removeAll = stack.removeAllRemotes()",
                              divergence=what))
@@ -300,7 +360,9 @@ def run():
     gc.freeze()          # forked workers then do not copy the parent heap page by page
     ck = core.Check("C37", "model_checking", META["technique"])
     gen_cfgs = ["plain"] if QUICK else ["plain", "falsy"]
-    foc_cfgs = ["falsy"] if QUICK else ["falsy", "plain"]
+    foc_cfgs = ["falsy", "ip"] if QUICK else ["falsy", "plain", "ip"]
+    if not QUICK:
+        gen_cfgs.append("ip")
     items = []
     for lc in gen_cfgs:
         set_local(lc)
@@ -325,6 +387,10 @@ def run():
                              universe=dict(uids=list(UIDS), names=list(NAMES), has=list(HAS), local=dict(LOCAL)),
                              local_device_configs=dict(general_family=gen_cfgs, focused_family=foc_cfgs, falsy=LOCALS["falsy"]))
     ck.assumptions = [
+        "Ip configuration (UdpStack on a handler double, IpLocalDevice, IpRemoteDevice, (host, port) addresses incl. spellings the constructor rewrites: "
+        "'0.0.0.0', '', 'localhost'): a device may report an address in the given or in the dotted form; required is that the ha index holds every member under the "
+        "address it currently reports, members' current addresses are distinct and differ from the local one, a raw collision is rejected, and a collision that only "
+        "exists after normalisation may be accepted or rejected",
         "uid 0, name '' and ha '' are legal keys like any other (ha '' is the default address of a device); they occur as remote keys when the local device has "
         "plain keys and as the local device's keys in the other configuration",
         "a rejected operation is one that raises ValueError (what every documented rejecting path of RemoteStack raises); any other exception is reported",
